@@ -46,7 +46,8 @@ EDFUNCS = {  # external drifts are given as arrays; these produce consistent val
 # model class -> largest dimension in which it is a valid (positive definite) model
 MODELS = {"Gaussian": 9, "Exponential": 9, "Matern": 9, "Integral": 9, "Stable": 9, "Rational": 9,
           "Cubic": 3, "Linear": 1, "Circular": 2, "Spherical": 3, "HyperSpherical": 9, "SuperSpherical": 9,
-          "JBessel": 9, "TPLSimple": 9}
+          "JBessel": 9, "TPLSimple": 9, "TPLExponential": 9, "TPLGaussian": 9, "TPLStable": 9}
+TPL_CLASSES = ["TPLExponential", "TPLGaussian", "TPLStable", "TPLSimple"]
 VARIANTS = ["Simple", "Ordinary", "Universal", "ExtDrift", "Detrended"]
 
 
@@ -173,10 +174,17 @@ def norm_code(nz):
     return ("n", 2), float(nz[1])
 
 
-def build_normalizer(nz):
+NORM_DEFAULTS = {"LogNormal": ["LogNormal"], "BoxCox": ["BoxCox", 1.0], "BoxCoxShift": ["BoxCoxShift", 1.0, 0.0],
+                 "YeoJohnson": ["YeoJohnson", 1.0], "Modulus": ["Modulus", 1.0], "Manly": ["Manly", 1.0]}
+
+
+def build_normalizer(nz, as_class=False):
     import gstools as gs
     if nz is None:
         return None
+    if as_class:            # the class shortcut: stands for an instance with the default parameters
+        assert list(nz) == NORM_DEFAULTS[nz[0]]
+        return getattr(gs.normalizer, nz[0])
     N = gs.normalizer
     k = nz[0]
     if k == "LogNormal":
@@ -240,7 +248,7 @@ def krige_kwargs(spec, capture=None):
     pit = spec.get("pseudo_inv_type", "pinv")
     kw["pseudo_inv_type"] = capture if (pit == "callable") else pit
     if v != "Detrended":
-        kw["normalizer"] = build_normalizer(spec.get("normalizer"))
+        kw["normalizer"] = build_normalizer(spec.get("normalizer"), bool(spec.get("normalizer_as_class")))
         kw["trend"] = fobj(spec.get("trend"))
     else:
         kw["trend"] = fobj(spec.get("trend"))
@@ -317,7 +325,7 @@ def cov_between(model, X, Y, nugget_aware):
             out[i] = model.cov_spatial(Y - X[:, i:i + 1])
         if nugget_aware:
             same = np.all(Y == X[:, i:i + 1], axis=0)
-            out[i, same] = model.sill
+            out[i, same] = model.var + model.nugget          # the sill, written out
     return out
 
 
@@ -384,16 +392,17 @@ def textbook(spec, cond_val=None, Y=None):
     lam = np.linalg.solve(K, k)
     raw = d @ lam
     e = np.einsum("it,it->t", k, lam)
-    out.update(lam=lam, raw=raw, err=e, var=np.maximum(model.sill - e, 0.0), sill=model.sill,
+    sill_ = float(model.var + model.nugget)                  # documented: sill = var + nugget (not read from model.sill)
+    out.update(lam=lam, raw=raw, err=e, var=np.maximum(sill_ - e, 0.0), sill=sill_,
                field=norm_bwd(nz, raw + fval(mean, Y, m)) + fval(trend, Y, m),
-               sfield=np.abs(d) @ np.abs(lam) + np.abs(raw), serr=np.einsum("it,it->t", np.abs(k), np.abs(lam)) + model.sill)
+               sfield=np.abs(d) @ np.abs(lam) + np.abs(raw), serr=np.einsum("it,it->t", np.abs(k), np.abs(lam)) + sill_)
     # thresholds: solver error + relative evaluation noise (tol_solve) + ABSOLUTE evaluation noise of the covariances
     # (1e3*eps*sill per right-hand-side entry: near the support edge of compact models a covariance of 1e-11 still
     # carries an absolute error of order eps*var) propagated through |K^-1|
     ainv = np.abs(np.linalg.inv(K))
-    dk = 1e3 * EPS * model.sill
+    dk = 1e3 * EPS * sill_
     out["tf"] = tol_field(cond, d, lam, raw) + dk * float((np.abs(d) @ ainv).sum())
-    out["tv"] = tol_err(cond, k, lam, model.sill) + 2 * dk * np.abs(lam).sum(axis=0)
+    out["tv"] = tol_err(cond, k, lam, sill_) + 2 * dk * np.abs(lam).sum(axis=0)
     return out
 
 
@@ -599,7 +608,8 @@ def gen_norm_data(rng, nz, n):
 
 
 def gen_spec(rng, variant=None, geo=None, dim=None, n=None, m=None, allow_norm=True, tier="quick", classes=None,
-             exact=None, nugget=None, norm_prob=0.35, mean_nonzero=False, geom_mode=None, drift_mode=None, var_scale=None, cell=None, norm_class=None):
+             exact=None, nugget=None, norm_prob=0.35, mean_nonzero=False, geom_mode=None, drift_mode=None, var_scale=None, cell=None, norm_class=None,
+             n_eq_dim=False):
     """cell = (functional drift kind 0..3: none / "linear" / "quadratic" / callables, number of external drifts 0..2,
     unbiased) for variant "Krige": the base class with its option combinations"""
     variant = variant or str(rng.choice(VARIANTS))
@@ -609,6 +619,8 @@ def gen_spec(rng, variant=None, geo=None, dim=None, n=None, m=None, allow_norm=T
     if nugget is not None:
         ms["kw"]["nugget"] = float(nugget)
     n = int(n or rng.integers(2, 9 if tier == "quick" else 15))
+    if n_eq_dim:            # exactly as many conditioning points as coordinates (shape coincidences), at least 2
+        n = max(fd, 2)
     spec = dict(variant=variant, model=ms, geo=geo)
     if variant == "Universal":
         # drift_mode cycles: callables, "linear", 1, "quadratic", 2, 3 (order 3 only for <= 2 coordinates), other callables
@@ -1268,6 +1280,12 @@ def probe_update_sequence(ctx, rng, spec, stats, zero_error=False):
     at the final conditioning points."""
     cur = jsonable(spec)
     cur["pseudo_inv_type"] = "pinv" if cur.get("pseudo_inv_type") == "callable" else cur.get("pseudo_inv_type", "pinv")
+    if cur["model"]["cls"] in ("TPLExponential", "TPLGaussian", "TPLStable"):
+        # the variance of these classes is var_raw * intensity(len_scale, len_low, hurst): an in-place len_scale change moves
+        # var, and var -> var_raw -> var is not bit-exact, so "fresh object from the present parameter values" is not a
+        # bit-level statement for them; the histories (a class-agnostic statement about caches) run on the other classes
+        stats["history_skipped_tpl"] = stats.get("history_skipped_tpl", 0) + 1
+        return
     spec = cur
     cur = jsonable(spec)
     kr = build_krige(cur)
@@ -1396,7 +1414,8 @@ def _run_history(rng, kr, cur, picks, order, steps, geo, v, fd, n, dim, sdim, pl
             kw["angles"] = x
             kr.set_condition()
         elif st == "model":
-            ms, _, _ = gen_model(rng, dim=(dim or None), geo=geo, geom_mode=int(rng.integers(2)))
+            ms, _, _ = gen_model(rng, dim=(dim or None), geo=geo, geom_mode=int(rng.integers(2)),
+                                 classes=[c for c in MODELS if c not in ("TPLExponential", "TPLGaussian", "TPLStable")])
             if plain and ms["kw"].get("dim") != dim:
                 continue
             ms["kw"]["nugget"] = kw["nugget"] if zero_error else ms["kw"]["nugget"]
@@ -1782,3 +1801,222 @@ def probe_single_targets(ctx, drv, spec, stats):
     if drv is not None:    # model side: the right-hand side of a one-column call (cov_nugget window) and the final values
         correspond_case(ctx, drv, dict(spec, pos=[[float(x)] for x in X[:, 0]]), stats)
         correspond_case(ctx, drv, dict(spec, pos=[[float(x) for x in r] for r in X]), stats)
+
+
+# --------------------------------------------------------------------------- memory layouts of every array argument
+
+def _layouts(a):
+    """the same array values in C order, Fortran order, as a transposed view, as a strided view, and as nested lists"""
+    a = np.array(a, dtype=float)
+    out = [("C", np.ascontiguousarray(a))]
+    if a.ndim >= 2:
+        out.append(("Fortran", np.asfortranarray(a)))
+        out.append(("transposed view", np.ascontiguousarray(a.T).T))
+    big = np.full(a.shape[:-1] + (2 * a.shape[-1] + 1,), np.nan)
+    big[..., 1::2] = a
+    out.append(("strided view", big[..., 1::2]))
+    out.append(("list", a.tolist()))
+    return out
+
+
+def probe_layouts(ctx, rng, spec, stats):
+    """results must not depend on the memory layout / container type of any array argument: conditioning positions and
+    values, external drift at the conditions, target positions (points or axes), external drift at the targets (flat
+    (q, m), grid-shaped (q, *shape), and (*shape) for a single drift on a structured mesh)"""
+    import gstools as gs
+    spec = jsonable(spec)
+    if spec.get("pseudo_inv_type") == "callable":
+        spec["pseudo_inv_type"] = "pinv"
+    fd = len(spec["cond_pos"])
+    if spec.get("mesh_type") == "structured":      # unequal axis lengths >= 2
+        lens = [3, 2, 4][:fd] if fd <= 3 else [2] * fd
+        spec["pos"] = [sorted(float(x) for x in np.round(rng.uniform(1, 9, k), 3)) for k in lens]
+        if spec["geo"] in ("latlon", "latlon_time"):
+            spec["pos"][0] = [float(x) for x in np.linspace(-40, 50, lens[0])]
+            spec["pos"][1] = [float(x) for x in np.linspace(-100, 120, lens[1])]
+    X = np.asarray(spec["cond_pos"], dtype=float)
+    val = np.asarray(spec["cond_val"], dtype=float)
+    Y = expand_pos(spec)
+    m = Y.shape[1]
+    ced = ext_drift_at(spec, X)
+    ted = ext_drift_at(spec, Y)
+    structured = spec.get("mesh_type") == "structured"
+    shape = [len(a) for a in spec["pos"]] if structured else None
+    kw0 = krige_kwargs(spec)
+    v = spec["variant"]
+    cls = getattr(gs.krige, v)
+
+    def build(cp, cv, ce):
+        kw = dict(kw0)
+        if v == "ExtDrift":
+            return cls(build_model(spec["model"]), cp, cv, ce, **kw)
+        if v == "Detrended":
+            tr = kw.pop("trend")
+            return cls(build_model(spec["model"]), cp, cv, tr, **kw)
+        if v == "Krige":
+            return cls(build_model(spec["model"]), cp, cv, ext_drift=ce, **kw)
+        return cls(build_model(spec["model"]), cp, cv, **kw)
+
+    def call(kr, pos, te):
+        args = dict(mesh_type=spec.get("mesh_type", "unstructured"), chunk_size=spec.get("chunk_size"))
+        if ted is not None:
+            args["ext_drift"] = te
+        f, vv = kr(pos, **args)
+        return np.asarray(f, dtype=float), np.asarray(vv, dtype=float)
+
+    pos0 = [np.asarray(a, dtype=float) for a in spec["pos"]] if structured else np.ascontiguousarray(Y)
+    base = call(build(np.ascontiguousarray(X), np.ascontiguousarray(val), ced), pos0, ted)
+    trials = []
+    for name, a in _layouts(X)[1:]:
+        trials.append(("cond_pos as " + name, (a, val, ced), pos0, ted))
+    trials.append(("cond_pos as tuple of strided rows", (tuple(_layouts(r)[1][1] for r in X), val, ced), pos0, ted))
+    for name, a in _layouts(val)[1:]:
+        trials.append(("cond_val as " + name, (X, a, ced), pos0, ted))
+    if ced is not None:
+        for name, a in _layouts(ced)[1:]:
+            trials.append(("ext_drift at the conditions as " + name, (X, val, a), pos0, ted))
+        if ced.shape[0] == 1:
+            trials.append(("ext_drift at the conditions as 1-D strided", (X, val, _layouts(ced[0])[1][1]), pos0, ted))
+    if structured:
+        trials.append(("target axes as strided views", (X, val, ced), [_layouts(a)[1][1] for a in pos0], ted))
+        trials.append(("target axes as lists", (X, val, ced), [a.tolist() for a in pos0], ted))
+    else:
+        for name, a in _layouts(Y)[1:]:
+            trials.append(("target positions as " + name, (X, val, ced), a, ted))
+    if ted is not None:
+        for name, a in _layouts(ted)[1:]:
+            trials.append(("ext_drift at the targets, flat (q, m), as " + name, (X, val, ced), pos0, a))
+        if structured:
+            g = ted.reshape([ted.shape[0]] + shape)
+            for name, a in _layouts(g):
+                trials.append(("ext_drift at the targets, grid-shaped (q, *shape), as " + name, (X, val, ced), pos0, a))
+            if ted.shape[0] == 1 and s_fdrift(spec) is None:     # (documented: allowed when it is the only drift term)
+                for name, a in _layouts(g[0]):
+                    trials.append(("single ext_drift at the targets, grid-shaped (*shape), as " + name, (X, val, ced), pos0, a))
+    for name, (cp, cv, ce), pos, te in trials:
+        ctx.count(None, hist=dict(probe="layouts"))
+        try:
+            r = call(build(cp, cv, ce), pos, te)
+        except Exception as e:  # noqa
+            _viol(ctx, "layouts", "%s: exception %r (C-contiguous arrays work)" % (name, e), dict(spec, layout=name), "layout:exc")
+            continue
+        if not (C.bit_equal(r[0], base[0]) and C.bit_equal(r[1], base[1])):
+            with np.errstate(all="ignore"):
+                dv = float(np.nanmax(np.abs(r[0] - base[0]))) if r[0].shape == base[0].shape else float("nan")
+            _viol(ctx, "layouts", "result depends on the memory layout / container of an argument: %s (mesh %s%s): max field deviation %.3g "
+                  "from the C-contiguous call" % (name, spec.get("mesh_type"), " %s" % shape if shape else "", dv),
+                  dict(spec, layout=name), "layout", c_contiguous=base[0], this_layout=r[0])
+
+
+# --------------------------------------------------------------------------- interference between objects
+
+def probe_interference(ctx, rng, stats, tier="quick"):
+    """A kriging result is a function of the object's OWN parameters (the model is a pure function): creating, fitting,
+    tuning and evaluating OTHER objects in between -- same normalizer class given as class or instance, fit_normalizer,
+    normalizer parameters changed, custom pseudo-inverse callables named like the built-in ones, CondSRF on another
+    Krige, deep copies -- must leave (a) the original object, (b) a new object built from the same arguments and
+    (c) a deep copy bit-identical to the run before; the new object must also still solve its textbook system."""
+    import copy
+    import gstools as gs
+    under_test = []
+    for v_, ncls in (("Ordinary", "BoxCox"), ("Simple", "Modulus"), ("Universal", "LogNormal"), ("ExtDrift", "YeoJohnson"),
+                     ("Krige", "Manly"), ("Ordinary", "BoxCoxShift"), ("Ordinary", None)):
+        sp = gen_spec(rng, variant=v_, geo="plain", dim=2, tier="quick", allow_norm=False, n=7, m=5)
+        sp["pseudo_inv"], sp["pseudo_inv_type"] = True, "pinv"
+        if ncls is not None:
+            sp["normalizer"] = list(NORM_DEFAULTS[ncls])
+            sp["normalizer_as_class"] = True
+            if sp.get("mean") is not None and isinstance(sp.get("mean"), str):
+                sp["mean"] = 0.1
+            X_ = np.asarray(sp["cond_pos"], dtype=float)
+            n_ = X_.shape[1]
+            sp["cond_val"] = [float("%.10g" % x) for x in gen_norm_data(rng, sp["normalizer"], n_) + fval(sp.get("trend"), X_, n_)]
+        under_test.append(sp)
+    # duplicated conditioning points, default pseudo-inverse routines
+    for pit in ("pinv", "pinvh"):
+        sp = gen_spec(rng, variant="Ordinary", geo="plain", dim=2, tier="quick", allow_norm=False, n=6, m=5, nugget=0.0, exact=False)
+        sp["cond_err"], sp["pseudo_inv"], sp["pseudo_inv_type"] = "nugget", True, pit
+        sp["cond_pos"] = [r + [r[2]] for r in sp["cond_pos"]]
+        sp["cond_val"] = sp["cond_val"] + [sp["cond_val"][2] + 0.7]
+        under_test.append(sp)
+
+    def results(kr, sp):
+        f, vv = call_krige(kr, sp)
+        gm = kr.get_mean()
+        return np.asarray(f, dtype=float), np.asarray(vv, dtype=float), np.array([np.nan if gm is None else float(gm)])
+
+    objs = [build_krige(sp) for sp in under_test]
+    before = [results(k, sp) for k, sp in zip(objs, under_test)]
+    # ---- the other objects
+    log = []
+    posB = rng.uniform(0, 10, size=(2, 12))
+    valB = np.exp(rng.normal(size=12)) + 0.3
+    tgtB = rng.uniform(0, 10, size=(2, 4))
+    mB = gs.Exponential(dim=2, var=1.1, len_scale=2.5)
+    N = gs.normalizer
+    for cname in NORM_CLASSES:
+        Cn = getattr(N, cname)
+        data = valB if cname in ("LogNormal", "BoxCox", "BoxCoxShift") else valB - 1.5
+        for how, norm in (("class", Cn), ("instance", Cn())):
+            try:
+                b = gs.krige.Ordinary(mB, posB, data, normalizer=norm, fit_normalizer=True)
+                b(tgtB)
+                log.append("Ordinary(normalizer=%s %s, fit_normalizer=True)" % (cname, how))
+                if hasattr(b.normalizer, "lmbda"):
+                    b.normalizer.lmbda = 0.3
+                    b.set_condition()
+                    b(tgtB)
+                    log.append("other.normalizer.lmbda = 0.3")
+            except Exception as e:  # noqa: fitting may fail on data; irrelevant here
+                log.append("(%s %s: %r)" % (cname, how, e))
+        try:
+            gs.vario_estimate(posB, data, normalizer=Cn, fit_normalizer=True)
+            log.append("vario_estimate(normalizer=%s class, fit_normalizer=True)" % cname)
+        except Exception as e:  # noqa
+            log.append("(vario_estimate %s: %r)" % (cname, e))
+
+    def pinv(mat):          # user routines named like the built-in ones, deliberately crude
+        return np.linalg.pinv(mat, rcond=1e-2)
+
+    def pinvh(mat):
+        return np.linalg.pinv(mat, rcond=1e-2)
+
+    for fn, nm in ((np.linalg.pinv, "numpy.linalg.pinv"), (pinv, "user function named pinv"), (pinvh, "user function named pinvh")):
+        b = gs.krige.Ordinary(mB, posB, valB, pseudo_inv_type=fn)
+        b(tgtB)
+        b.pseudo_inv_type = fn
+        b.set_condition()
+        log.append("Ordinary(pseudo_inv_type=%s) + setter" % nm)
+    b = gs.krige.Simple(gs.Gaussian(dim=2, var=0.7, len_scale=1.5, nugget=0.1), posB, valB - 1.0, mean=0.3)
+    gs.CondSRF(b, seed=3)(tgtB)
+    log.append("CondSRF on another Krige")
+    # ---- after
+    for sp, k0, r0 in zip(under_test, objs, before):
+        ctx.count(spec_key(sp, ("interference",)), hist=dict(probe="interference"))
+        for what, kr in (("the original object, evaluated again", k0), ("a new object built from the same arguments", None),
+                         ("a deep copy of the original object", "copy")):
+            try:
+                if kr is None:
+                    kr = build_krige(sp)
+                elif isinstance(kr, str):
+                    kr = copy.deepcopy(k0)
+                r1 = results(kr, sp)
+            except Exception as e:  # noqa
+                _viol(ctx, "interference", "%s raises %r after other objects were used" % (what, e), dict(sp, others=log), "interference:exc")
+                continue
+            if not all(C.bit_equal(a, b_) for a, b_ in zip(r0, r1)):
+                with np.errstate(all="ignore"):
+                    dv = float(np.nanmax(np.abs(r0[0] - r1[0])))
+                _viol(ctx, "interference", "%s gives another result after OTHER objects were created / fitted / tuned (max field deviation %.3g); "
+                      "others: %s" % (what, dv, "; ".join(log)), dict(sp, others=log, which=what), "interference",
+                      before=r0[0], after=r1[0])
+                break
+        # the textbook system of the object's own (default) parameters
+        tb = textbook(sp)
+        if not (tb.get("singular") or tb["cond"] > COND_MAX):
+            krn = build_krige(sp)
+            fr = np.asarray(call_krige(krn, sp, post_process=False)[0], dtype=float).reshape(-1)
+            if not np.all(np.abs(fr - tb["raw"]) <= tb["tf"]):
+                _viol(ctx, "interference", "a new object built after the other objects does not solve the kriging system of its own parameters "
+                      "(target %d: dev %.3g, tol %.3g)" % _worst(np.abs(fr - tb["raw"]), tb["tf"]), dict(sp, others=log), "interference:textbook",
+                      impl=fr, expected=tb["raw"])
